@@ -829,6 +829,33 @@ def sweep_configs(tier):
             cfg["fixed_schedule"] = [first] * step + [second] * (3 * solo)
             cfg["family"] = "single_preemption"
             out.append(cfg)
+    # a parent that has built another model, then forks two workers that race on this one
+    other = "sphere" if model != "sphere" else "cylinder"
+    for seed in range(6 if tier == "quick" else 24):
+        for policy in ({"kind": "uniform"}, {"kind": "pct", "d": 2, "horizon": 3 * solo}):
+            cfg = base_config([
+                {"name": "P0", "loads": [[other, "double"]], "start_at": 0},
+                {"name": "P1", "loads": [[model, "double"]], "start_at": 2 * G["solo_max"], "forked_from": "P0"},
+                {"name": "P2", "loads": [[model, "double"]], "start_at": 2 * G["solo_max"], "forked_from": "P0"},
+                {"name": "P3", "loads": [[model, "double"]], "start_at": 2 * G["solo_max"] + solo // 2,
+                 "forked_from": "P0"}])
+            cfg["cc_plans"] = [{"cuts": [0.5], "mode": "append", "fail": None}] * 4
+            cfg["policy"] = policy
+            cfg["sched_seed"] = seed
+            cfg["family"] = "forked_workers"
+            out.append(cfg)
+    # every failing system call, alone and next to a second process, on one or two file systems
+    for kind in ("enospc_source_write", "enospc_mkdtemp", "eacces_replace"):
+        for n in (1, 2):
+            for xdev in (False, True):
+                cfg = base_config([{"name": "P%d" % i, "loads": [[model, "double"]], "start_at": 0}
+                                   for i in range(n)])
+                cfg["cc_plans"] = [{"cuts": [0.5], "mode": "append", "fail": None}] * 2
+                cfg["io_faults"] = [{"target": "P0", "kind": kind}]
+                cfg["xdev"] = xdev
+                cfg["policy"] = {"kind": "sticky", "p": 0.9}
+                cfg["family"] = "failing_system_call"
+                out.append(cfg)
     # compiler failure at every piece, both ways
     for how in ("clean", "killed"):
         for after in range(0, 4):
